@@ -347,6 +347,30 @@ def r_cursor(ctx, view):
                            fronts["cursor"], backs["cursor"], g["text"] if g else "no guard"))
         elif backs and not fronts:
             ctx.ob("R-CURSOR", T + ":c2:back-without-front", False, ms["next_back"].loc(), "next_back without next")
+        # c5: no other method of the iterator touches the cursors: only next / next_back / size_hint / len may be defined
+        for tr, allowed in ((IT, {"next", "size_hint"}), (DEI, {"next_back"}), (ESI, {"len"})):
+            im = impl_for(prog, tr, T)
+            if im is None:
+                continue
+            for item in im["items"]:
+                if item["kind"] != "Fn":
+                    continue
+                m = prog.fn(item["key"])
+                ctx.ob("R-CURSOR", "%s:c5:override:%s" % (T, item["name"]), item["name"] in allowed, m.loc(),
+                       "`%s` is overridden on an iterator that manufactures `&mut` from raw pointers; only next/next_back/size_hint/len are covered by the cursor discipline" % item["name"])
+        # any write to a cursor field outside the stepping methods and the constructor
+        cursors = {c["cursor"] for c in info.values() if c["cursor"]}
+        for g in prog.fns.values():
+            st = g.j.get("impl_self") or {}
+            if st.get("path") != T or g.name in ("next", "next_back", "new"):
+                continue
+            for b in g.blocks:
+                for s2 in b["stmts"]:
+                    if s2["k"] == "assign" and s2["place"]["proj"]:
+                        fld = self_field(view.vp.place(g, s2["place"]))
+                        if fld in cursors:
+                            ctx.ob("R-CURSOR", "%s:c3:foreign-cursor-write:%s" % (T, g.name), False, g.loc(s2["span"]),
+                                   "method `%s` writes the cursor `%s`" % (g.name, fld))
         # c4: len mentions the cursor(s)
         Tdesc = T
         esi = impl_for(prog, ESI, Tdesc)
